@@ -56,8 +56,8 @@ type cIn struct {
 	expire     time.Duration // of a Set
 	tCall      time.Duration // virtual instants of invocation and return
 	tRet       time.Duration
-	fromLoader bool // cGet miss that stands for "Take called its loader"
-	raceSet    bool // cDel whose call interval overlaps a Set of the same key by another client
+	fromLoader bool   // cGet miss that stands for "Take called its loader"
+	raceSet    bool   // cDel whose call interval overlaps a Set of the same key by another client
 	raceKeys   uint32 // cSet: keys (bit key%32) of which another client's Set overlaps this call (it may evict them mid-Set)
 	// cSet issued while the timer of an earlier store of the same key may have been firing
 	// (markMayLoseTimer): the expiry task of that earlier entry may remove this store's timer
